@@ -158,7 +158,8 @@ fn encode_script(steps: &[Step]) -> Vec<u8> {
                         CbOp::Delete => o.push(0x29),
                     }
                 }
-                b.extend_from_slice(&[0x0c, *sec, *target, *stop as u8, o.len() as u8]);
+                assert!(o.len() < 65536);
+                b.extend_from_slice(&[0x0c, *sec, *target, *stop as u8, o.len() as u8, (o.len() >> 8) as u8]);
                 b.extend_from_slice(&o);
             }
         }
@@ -440,6 +441,8 @@ fn cb_programs(rec: &Rec) -> Vec<Vec<CbOp>> {
         vec![CbOp::RrClass, CbOp::RrTtl],
         vec![CbOp::SetRrTtl(0xdead_beef), CbOp::RrTtl],
         vec![CbOp::SetRawName(nm("new.x")), CbOp::Name],
+        vec![CbOp::SetRawName(name_of_wire_len(255)), CbOp::Name],
+        vec![CbOp::SetRawName(name_of_wire_len(254)), CbOp::Name],
         vec![CbOp::SetRawName(vec![1, 1, 0])],
         vec![CbOp::SetRawName(vec![1, b'a'])],
         vec![CbOp::SetName(b"Host.Example".to_vec(), vec![]), CbOp::Name],
@@ -781,8 +784,8 @@ fn decode_script(b: &[u8]) -> Vec<Step> {
                 Step::Rename(t, s, take(&mut i, 1)[0] != 0)
             }
             _ => {
-                let h = take(&mut i, 4);
-                let ops_b = take(&mut i, h[3] as usize);
+                let h = take(&mut i, 5);
+                let ops_b = take(&mut i, h[3] as usize | ((h[4] as usize) << 8));
                 let mut ops = vec![];
                 let mut j = 0;
                 while j < ops_b.len() {
